@@ -46,6 +46,10 @@ const (
 	opResetH
 	// a call the handlers refuse (ID = "<export|reset> <METHOD> <query> <status>"): not an export, not a reset
 	opRefusedH
+	// the body of the message arrives from a peer: reading it waits until the driver lets it through (held.go;
+	// ID = "<id>@<chunk before which the body is held>")
+	opReqHeld
+	opRespHeld
 )
 
 type op struct {
@@ -75,6 +79,10 @@ func (o op) String() string {
 		return "ResetH(" + o.ID + ")"
 	case opRefusedH:
 		return "RefusedH(" + o.ID + ")"
+	case opReqHeld:
+		return "ReqHeld(" + o.ID + ")"
+	case opRespHeld:
+		return "RespHeld(" + o.ID + ")"
 	}
 	return "Reset"
 }
@@ -94,7 +102,7 @@ func parseOp(name string) (op, bool) {
 		return op{}, false
 	}
 	kinds := map[string]int{"Req": opReq, "Resp": opResp, "ReqFail": opReqFail, "RespFail": opRespFail, "ExportH": opExportH,
-		"ExportAndResetH": opExportResetH, "ResetH": opResetH, "RefusedH": opRefusedH}
+		"ExportAndResetH": opExportResetH, "ResetH": opResetH, "RefusedH": opRefusedH, "ReqHeld": opReqHeld, "RespHeld": opRespHeld}
 	k, ok := kinds[name[:i]]
 	return op{Kind: k, ID: name[i+1 : len(name)-1]}, ok
 }
@@ -125,6 +133,10 @@ func (m *model) clone() *model { return &model{entries: append([]mentry(nil), m.
 // apply returns the expected observable result of the operation.
 func (m *model) apply(o op, tag int) string {
 	switch o.Kind {
+	case opReqHeld, opRespHeld:
+		// a body that arrives slowly changes when the call returns, not what it does
+		id, _ := heldID(o)
+		return m.apply(op{map[int]int{opReqHeld: opReq, opRespHeld: opResp}[o.Kind], id}, tag)
 	case opReq:
 		for _, e := range m.entries {
 			if e.id == o.ID {
@@ -628,7 +640,8 @@ func parseTags(s string) []int {
 
 func kindName(k int) string {
 	return [...]string{"record_request", "record_response", "export", "export_and_reset", "reset", "record_request_failing_body",
-		"record_response_failing_body", "export_handler", "reset_handler_return", "reset_handler", "handler_refusal"}[k]
+		"record_response_failing_body", "export_handler", "reset_handler_return", "reset_handler", "handler_refusal",
+		"record_request", "record_response"}[k]
 }
 
 // ---- part 2: concurrent executions ----
@@ -646,9 +659,16 @@ type event struct {
 type scenario struct {
 	Prime   []op   // operations applied sequentially before the threads start
 	Threads [][]op // per-thread programs
+	// family held (held.go): calls whose message body is held by its peer (one thread each, in the order in which
+	// the bodies are let through); Free = the bodies are let through at any point of the schedule
+	Holders []op `json:",omitempty"`
+	Free    bool `json:",omitempty"`
 }
 
 func (s scenario) String() string {
+	if len(s.Holders) > 0 {
+		return fmt.Sprintf("prime=%v holders=%v free_release=%v threads=%v", s.Prime, s.Holders, s.Free, s.Threads)
+	}
 	return fmt.Sprintf("prime=%v threads=%v", s.Prime, s.Threads)
 }
 
@@ -874,6 +894,7 @@ func main() {
 		rings = [][2]int{{1, 12}, {2, 6}, {3, 3}, {4, 2}}
 	}
 	scen = append(scen, frontScenarios(frontOps)...)
+	held := heldScenarios(tier)
 	if os.Getenv("VERIF_REPLAY") != "" {
 		replay(os.Getenv("VERIF_REPLAY"))
 		return
@@ -886,6 +907,15 @@ func main() {
 				fmt.Fprintf(os.Stderr, "shard 0: %-8s %6d ms\n", what, time.Since(t0).Milliseconds())
 			}
 			t0 = time.Now()
+		}
+		if only := os.Getenv("C17_ONLY"); only != "" {
+			// development aid (measuring one family; the report is then not a verdict on the property)
+			if only == "held" {
+				heldPart(out, held, i, n, time.Now().Add(40*time.Minute))
+			}
+			b, _ := json.Marshal(out)
+			os.WriteFile(os.Getenv("VERIF_SHARD_OUT"), b, 0o644)
+			return
 		}
 		seqPart(out, maxLen, i, n)
 		lap("seq")
@@ -909,11 +939,16 @@ func main() {
 		}
 		concPart(out, scen, i, n, dl)
 		lap("conc")
+		heldPart(out, held, i, n, dl)
+		lap("held")
 		b, _ := json.Marshal(out)
 		os.WriteFile(os.Getenv("VERIF_SHARD_OUT"), b, 0o644)
 		return
 	}
 	rep := lib.NewReport("C17", "model_checking")
+	if os.Getenv("C17_ONLY") != "" {
+		rep.Incomplete = "C17_ONLY is set: only one family was run"
+	}
 	files, errs, outs := lib.RunShards(16, lib.Root+"/.build/c17/shards")
 	for i, f := range files {
 		if errs[i] != nil {
@@ -940,19 +975,20 @@ func main() {
 		}
 	}
 	added := rep.Counter("front_histories") + rep.Counter("errs_histories") + rep.Counter("ring_histories")
-	rep.Coverage["states"] = rep.Counter("seq_distinct_final_states") + rep.Counter("conc_distinct_histories")
-	rep.Coverage["transitions"] = rep.Counter("seq_steps") + rep.Counter("conc_points") + rep.Counter("bulk_steps") + rep.Counter("front_steps") + rep.Counter("errs_steps") + rep.Counter("ring_steps")
-	rep.Coverage["traces_validated_against_impl"] = rep.Counter("seq_histories") + rep.Counter("conc_executions") + rep.Counter("bulk_histories") + added
-	rep.Coverage["evaluations"] = rep.Counter("seq_steps") + rep.Counter("bulk_steps") + rep.Counter("front_steps") + rep.Counter("errs_steps") + rep.Counter("ring_steps") + rep.Counter("snapshots_rechecked") + rep.Counter("conc_executions")
-	rep.Coverage["distinct_nontrivial"] = rep.Counter("seq_nontrivial_final") + rep.Counter("front_nontrivial") + rep.Counter("errs_nontrivial") + rep.Counter("ring_nontrivial") + rep.Counter("conc_scenarios_with_multiple_outcomes")
-	rep.Coverage["rule"] = "histories: every sequence of the family's alphabet up to its length bound (seq, front, errs), every (size, position of the pending request, suffix) (bulk), every (new requests, completed subset) per round (ring) - enumerated without repetition, nothing sampled; a seq history is non-trivial when the model's log is not empty at its end, a front/errs/ring history when one of its exports or export-and-resets lists at least one entry; concurrent: every scenario of scenarios()+frontScenarios() x every interleaving of its scheduling points, a scenario is non-trivial when its interleavings produce more than one distinct call/return history; evaluations = steps compared with the model + exported objects read again + executions judged for linearizability"
-	rep.Coverage["executions"] = rep.Counter("conc_executions")
+	rep.Coverage["states"] = rep.Counter("seq_distinct_final_states") + rep.Counter("conc_distinct_histories") + rep.Counter("held_distinct_histories")
+	rep.Coverage["transitions"] = rep.Counter("seq_steps") + rep.Counter("conc_points") + rep.Counter("held_points") + rep.Counter("bulk_steps") + rep.Counter("front_steps") + rep.Counter("errs_steps") + rep.Counter("ring_steps")
+	rep.Coverage["traces_validated_against_impl"] = rep.Counter("seq_histories") + rep.Counter("conc_executions") + rep.Counter("held_executions") + rep.Counter("bulk_histories") + added
+	rep.Coverage["evaluations"] = rep.Counter("seq_steps") + rep.Counter("bulk_steps") + rep.Counter("front_steps") + rep.Counter("errs_steps") + rep.Counter("ring_steps") + rep.Counter("snapshots_rechecked") + rep.Counter("conc_executions") + rep.Counter("held_executions")
+	rep.Coverage["distinct_nontrivial"] = rep.Counter("seq_nontrivial_final") + rep.Counter("front_nontrivial") + rep.Counter("errs_nontrivial") + rep.Counter("ring_nontrivial") + rep.Counter("conc_scenarios_with_multiple_outcomes") + rep.Counter("held_scenarios_with_multiple_outcomes")
+	rep.Coverage["rule"] = "histories: every sequence of the family's alphabet up to its length bound (seq, front, errs), every (size, position of the pending request, suffix) (bulk), every (new requests, completed subset) per round (ring) - enumerated without repetition, nothing sampled; a seq history is non-trivial when the model's log is not empty at its end, a front/errs/ring history when one of its exports or export-and-resets lists at least one entry; concurrent: every scenario of scenarios()+frontScenarios()+heldScenarios() x every interleaving of its scheduling points, a scenario is non-trivial when its interleavings produce more than one distinct call/return history; evaluations = steps compared with the model + exported objects read again + executions judged for linearizability (held: and for calls that have not returned while a peer holds a body)"
+	rep.Coverage["executions"] = rep.Counter("conc_executions") + rep.Counter("held_executions")
 	rep.Coverage["exhaustive"] = rep.Incomplete == ""
-	rep.Coverage["bounds"] = fmt.Sprintf("sequential: all %d^%d operation sequences (and their prefixes) over ids {a,b,c}; long logs: 1..200 (1000 thorough) completed exchanges plus a pending request followed by every suffix of 2 (3) operations; concurrent: %d scenarios of 2-3 threads x 1-2 ops on ids {a,b} from an empty and a primed log, all interleavings (unbounded), of which %d read and clear the log through the HTTP handlers (2 threads, <= %d operations, unlock points); front: all %d^%d sequences with Export / ExportAndReset / Reset made through the handlers in 2 spellings each plus 3 refused calls, ids {a,b}; errs: all %d^%d sequences with failing request and response bodies, ids {a,b}; ring: [rounds, most new requests per round] in %v, a round = (new requests, every subset of the pending ones completed, Export, ExportAndReset, Export), then drain and id reuse; every object handed out by Export / ExportAndReset is read again at the end of its history", 9, maxLen, len(scen), rep.Counter("conc_scenarios_through_handlers"), frontOps, len(frontAlphabet()), frontLen, len(errsAlphabet()), errsLen, rings)
+	rep.Coverage["bounds"] = fmt.Sprintf("sequential: all %d^%d operation sequences (and their prefixes) over ids {a,b,c}; long logs: 1..200 (1000 thorough) completed exchanges plus a pending request followed by every suffix of 2 (3) operations; concurrent: %d scenarios of 2-3 threads x 1-2 ops on ids {a,b} from an empty and a primed log, all interleavings (unbounded), of which %d read and clear the log through the HTTP handlers (2 threads, <= %d operations, unlock points); front: all %d^%d sequences with Export / ExportAndReset / Reset made through the handlers in 2 spellings each plus 3 refused calls, ids {a,b}; errs: all %d^%d sequences with failing request and response bodies, ids {a,b}; ring: [rounds, most new requests per round] in %v, a round = (new requests, every subset of the pending ones completed, Export, ExportAndReset, Export), then drain and id reuse; every object handed out by Export / ExportAndReset is read again at the end of its history; held: %d scenarios in which RecordRequest / RecordResponse (id a) reads a body that its peer holds before chunk %v of 2 (2 = the end) while one thread of 1-2 operations or two threads of one operation make every other call (direct and through the handlers, ids a,b), from an empty and a primed log, the body let through only at quiescence; %d of them with two bodies held and let through one after the other, %d with the body let through at any point of the schedule; all interleavings", 9, maxLen, len(scen), rep.Counter("conc_scenarios_through_handlers"), frontOps, len(frontAlphabet()), frontLen, len(errsAlphabet()), errsLen, rings, len(held), heldAts(tier), rep.Counter("held_scenarios_two_bodies"), rep.Counter("held_scenarios_free_release"))
 	rep.Coverage["explanation"] = "every trace is an execution of the real har.Logger (rewritten only so that its mutex is a scheduling point); states = distinct final model states + distinct concurrent histories"
 	rep.Assumptions = []string{
 		"scheduling points are the logger lock operations; unsynchronised accesses are the business of the auxiliary free-running -race pass (sampling)",
 		"ids limited to {a,b,c} (x0..x9 in the ring family); request shapes: bodiless GET, POST with a text body, POST whose body fails; responses: 2xx with a text body, or a body that fails",
+		"held bodies: two chunks, one Read each; the peer lets a body through only when no thread can move (the longest possible stall) or, in the free-release scenarios, at any scheduling point; a body is held at one position per scenario",
 		"the handlers are called with a ResponseRecorder (no network); martian's own logging is switched off (log.SetLogger) so that its global lock adds no scheduling points",
 	}
 	// auxiliary race pass: the same kind of thread bodies free-running on the unrewritten tree under -race
@@ -1032,7 +1068,11 @@ func replay(path string) {
 	} else {
 		out := &shardOut{Counters: map[string]int64{}}
 		// explore only the recorded scenario; the recorded schedule is among its interleavings
-		concPart(out, []scenario{r.Scenario}, 0, 0, time.Now().Add(time.Minute))
+		if len(r.Scenario.Holders) > 0 {
+			heldPart(out, []scenario{r.Scenario}, 0, 0, time.Now().Add(time.Minute))
+		} else {
+			concPart(out, []scenario{r.Scenario}, 0, 0, time.Now().Add(time.Minute))
+		}
 		for _, v := range out.Violations {
 			fmt.Println(v.Desc)
 			bad = true
